@@ -23,22 +23,22 @@ check("C06", "E2 enum", "exploration",
 check("C26", "E1 sched", "model_checking",
       "stateless schedule exploration of the real symbol table under a controlled scheduler (all interleavings, happens-before state caching; statement-level points with preemption bound) + brute-force linearizability",
       "The real value.SymbolTableStruct is driven by 2-3 scheduled threads over all operation-sequence assignments of the alphabet; every interleaving of its RWMutex operations is explored, then every schedule with <=2 (thorough 3) preemptions with a scheduling point before every statement of symbol_table.go; each complete call/return history is checked for linearizability against a sequential map and the final table for bijectivity.",
-      "Go memory-model effects below statement granularity are not modelled (a free-running -race pass would be needed for data races proper); alphabet: 2 names, ids 0-1")
+      "Go memory-model effects below statement granularity are not modelled by the exploration; they are covered by the supplementary free-running pass of the same configurations under Go's race detector (case racepass/symtab, sampling, decides nothing alone); alphabet: 2 names, ids 0-1")
 
 check("C16", "E1 sched", "model_checking",
       "stateless schedule exploration (preemption-bounded DFS) of the real promise / thread-pool / AWAIT code under a controlled scheduler injected by build overlay",
       "Six async Elk scenarios x pool sizes 1-3 x queue capacities 1-8 are executed on the real VM with every Mutex/WaitGroup/channel/goroutine operation of vm/promise.go, vm/thread_pool.go and vm/thread.go owned by the scheduler; all schedules with <=2 (thorough 3) preemptions at synchronisation points, and <=1 (thorough 2) with an additional point before every statement of promise.go/thread_pool.go, are enumerated; deadlock (lost wake-up or capacity), host panic and any deviation of the stdout multiset from the sequential expectation are violations.",
-      "interpreter code between scheduling points runs atomically; timers not modelled; per-case wall-clock budget can end a configuration early (reported as exhaustive:false with the configurations concerned)")
+      "interpreter code between scheduling points runs atomically; timers not modelled; per-case wall-clock budget can end a configuration early (reported as exhaustive:false with the configurations concerned); a supplementary free-running pass of the same scenarios under Go's race detector (case racepass/scenarios) reports accesses racing between scheduling points; it is sampling and decides nothing alone")
 
 check("C25", "E1 sched", "model_checking",
       "stateless schedule exploration (preemption-bounded DFS, ready select cases enumerated) of Elk programs using go/Channel/Mutex/RWMutex/WaitGroup/Once/select on the real VM under a controlled scheduler injected by build overlay",
       "12 multi-threaded Elk scenarios run on the real VM with every channel, lock, wait-group, once, goroutine-start and select operation of value/channel_of_value.go, value/{mutex,rwmutex,wait_group,once}.go, vm/once.go and vm/thread.go owned by the scheduler; all schedules with <=2 (thorough 3) preemptions are enumerated and each is checked for exactly-once FIFO delivery, select readiness, close semantics, mutual exclusion, run-once, absence of deadlock and of host panics/fatals; 10 single-threaded misuse sequences must raise Elk errors.",
-      "interpreter code between scheduling points runs atomically; unbuffered channels are modelled by verifrt's rendezvous (the real channel is not used for them); timers not modelled")
+      "interpreter code between scheduling points runs atomically; unbuffered channels are modelled by verifrt's rendezvous (the real channel is not used for them); timers not modelled; a supplementary free-running pass of the same scenarios under Go's race detector (case racepass/scenarios) reports accesses racing between scheduling points; it is sampling and decides nothing alone")
 
 check("C11", "E1 sched", "model_checking",
       "stateless schedule exploration (preemption-bounded DFS) of the parallel method/macro body checking phase of the real type checker under a controlled scheduler injected by build overlay",
       "checker.CheckSource runs under the scheduler for 9 programs with colliding method bodies x MethodCheckConcurrencyLimit {1,2,3,100}; every schedule of concurrent.Foreach's goroutines, semaphore, the diagnostics mutex and concurrent containers (plus statement-level points in diagnostic.go/slice.go/map.go) with <=1 (thorough 2) preemptions is executed on the real checker and compiler, and the sorted diagnostics and the compiled program's behaviour must equal the sequential outcome.",
-      "only the body-checking phase branches; unsynchronised accesses between points (e.g. the Method.Body write/read race seen by go test -race in the design round) are invisible to a cooperative scheduler; per-case wall-clock budget may end a configuration early (exhaustive:false)")
+      "only the body-checking phase branches; unsynchronised accesses between points are invisible to a cooperative scheduler: the clause 'free of data races' is covered by the supplementary free-running pass of the same programs under Go's race detector (case racepass/programs; it found and led to the repair of three races, see known_findings.jsonl); per-case wall-clock budget may end a configuration early (exhaustive:false)")
 
 check("C33", "E2 enum", "exploration",
       "bounded-exhaustive enumeration of (non-terminating program shape x cancellation poll index) with a poll-counting context; blocking shapes additionally cancelled while blocked",
